@@ -95,3 +95,13 @@ Proof. exact (@SystErr.systerr_response). Qed.
 End T_systerr_response.
 Definition C10_systerr_response := @T_systerr_response.C10_systerr_response.
 
+Module T_tie_widths. Import Tie. Local Open Scope bool_scope. Local Open Scope Z_scope.
+Local Open Scope Z_scope.
+Theorem C10_tie_widths :
+  match Generated.gen_widths with
+  | [oc; ic; wr; rd; cnt; sz] => 32 <= oc /\ 32 <= ic /\ 16 <= wr /\ 16 <= rd /\ 16 <= cnt /\ 16 <= sz
+  | _ => False end.
+Proof. exact (@Tie.tie_widths). Qed.
+End T_tie_widths.
+Definition C10_tie_widths := @T_tie_widths.C10_tie_widths.
+
